@@ -111,6 +111,13 @@ CLAIMED = {
              "report c2, every internal record has Y's size/step time/duration; symbolic obligations: from a cleared state X and Y give equal outputs, "
              "states, delayed reads (symbolic selector), views and dumps for T = 2-3 symbolic input steps.",
         ref="6/C14"),
+    "C15": dict(
+        text="Exhaustive enumeration (solver-driven choice points) of lifecycle programs up to the length bound over {layer step, trainer train/eval, layer "
+             "train/eval, trainer clear, del/register cell, trainer step} on a Serial layer and on a Biclique whose two cells share the post-synaptic group "
+             "(pooled monitors), and two-trainer programs over {step, second trainer register/del/eval/train/clear, drop}. Every layer step feeds fresh "
+             "SYMBOLIC spikes, so 'each monitor of each registered cell recorded exactly the armed steps, once' is an equality with the closed-form trace over "
+             "exactly those steps, decided by the solver for all spike values; cell and monitor listings are compared with a reference model.",
+        ref="6/C15"),
     "C16": dict(
         text="(a) exhaustive enumeration (solver-driven choice points) of all lifecycle programs up to the length bound over {register, deregister, train, "
              "eval, call module, manual call(force, ignore_mode), delete hook + gc} for every enable-flag combination and pre/post placement, incl. the "
